@@ -699,7 +699,10 @@ class ExprMixin:
             return self.wrap(f(v.term), fs.t)
         t = fs.t
         if t.is_container:
-            return Cont(FieldLoc(v.term, fs.fid, t.sort()), t)
+            c = Cont(FieldLoc(v.term, fs.fid, t.sort()), t)
+            if t.kind == 'list' and not st.spec:
+                st.assume(t.acc('len')(c.loc.read(st)) >= 0)      # every list has a non-negative length
+            return c
         term = z3.Select(st.heap_arr(fs.fid, t.sort()), v.term)
         if t.kind == 'ref':
             r = RefV(term, t, fs.nullable)
